@@ -88,7 +88,8 @@ def step (line : String) : String :=
                            gadv := ((field ws "gadv").bind fun g => ints g ".").getD [] |>.toArray,
                            cmap := synthCmap,
                            silfDir := ((field ws "sdir").bind String.toNat?).getD 0,
-                           bPass := ((field ws "bidi").bind String.toNat?).getD 0xFF }
+                           bPass := ((field ws "bidi").bind String.toNat?).getD 0xFF,
+                           aMirror := ((field ws "mirror").bind String.toNat?).getD 0 }
       let dir := ((field ws "dir").bind String.toNat?).getD 0
       match shape font text.toList 100000 dir with
       | .error w => "fault " ++ w
